@@ -1,0 +1,212 @@
+//go:build verif
+
+package main
+
+// Second part of the case-file driven driver for the verification harness (property C11): the per-sample
+// fetch of the segmenter.  Called from TestVerifDriver (c11_verif_test.go) for lines starting with "G".
+//
+// Input, tab separated:
+//   G <id> <mem|lazy> <start> <end> <stts> <ctts> <stsc> <stsz> <offsets> <stss> <sdtp> <mdatStart> <mdatLen> <file hex>
+//     stts    = <counts>;<deltas>            (comma lists, "-" = empty)
+//     ctts    = N | <EndSampleNr list>;<SampleOffset list>     (struct fields set directly)
+//     stsc    = <firstChunk>:<samplesPerChunk>:<firstSampleNr>,... | -
+//     stsz    = <uniform>;<sample number>;<sizes>
+//     offsets = N | S;<stco> | C;<co64> | B;<stco>;<co64>
+//     stss    = N | Y;<sample numbers>       sdtp = N | Y;<entry bytes>
+// Output: the input line + three fields
+//   full = GetFullSamplesForInterval : panic | err | ok:<flags>.<dur>.<size>.<cto>.<dts>.<data hex or ->;...  (ok:- when empty)
+//   meta = GetSamplesForInterval     : panic | err | ok:<flags>.<dur>.<size>.<cto>;...
+//   copy = copyMediaData             : panic | err | ok:<hex or ->
+// plus a fourth: flags = TranslateSampleFlagsForFragment(stbl, start) : panic | ok:<flags>
+
+import (
+	"bytes"
+	"encoding/hex"
+	"fmt"
+	"strconv"
+	"strings"
+
+	"github.com/Eyevinn/mp4ff/mp4"
+)
+
+func c11U32s(s string) []uint32 {
+	if s == "-" || s == "" {
+		return nil
+	}
+	p := strings.Split(s, ",")
+	o := make([]uint32, len(p))
+	for i, x := range p {
+		v, err := strconv.ParseUint(x, 10, 32)
+		if err != nil {
+			panic(err)
+		}
+		o[i] = uint32(v)
+	}
+	return o
+}
+
+func c11U64s(s string) []uint64 {
+	if s == "-" || s == "" {
+		return nil
+	}
+	p := strings.Split(s, ",")
+	o := make([]uint64, len(p))
+	for i, x := range p {
+		v, err := strconv.ParseUint(x, 10, 64)
+		if err != nil {
+			panic(err)
+		}
+		o[i] = v
+	}
+	return o
+}
+
+func c11FetchStbl(f []string) *mp4.StblBox {
+	stbl := &mp4.StblBox{}
+	st := strings.Split(f[0], ";")
+	stbl.Stts = &mp4.SttsBox{SampleCount: c11U32s(st[0]), SampleTimeDelta: c11U32s(st[1])}
+	if f[1] != "N" {
+		ct := strings.Split(f[1], ";")
+		stbl.Ctts = &mp4.CttsBox{EndSampleNr: c11U32s(ct[0])}
+		if ct[1] != "-" && ct[1] != "" {
+			for _, x := range strings.Split(ct[1], ",") {
+				v, err := strconv.ParseInt(x, 10, 32)
+				if err != nil {
+					panic(err)
+				}
+				stbl.Ctts.SampleOffset = append(stbl.Ctts.SampleOffset, int32(v))
+			}
+		}
+	}
+	stbl.Stsc = &mp4.StscBox{}
+	if f[2] != "-" {
+		for _, e := range strings.Split(f[2], ",") {
+			p := c11U32s(strings.ReplaceAll(e, ":", ","))
+			stbl.Stsc.Entries = append(stbl.Stsc.Entries, mp4.StscEntry{FirstChunk: p[0], SamplesPerChunk: p[1], FirstSampleNr: p[2]})
+		}
+	}
+	sz := strings.Split(f[3], ";")
+	stbl.Stsz = &mp4.StszBox{SampleUniformSize: c11U32s(sz[0])[0], SampleNumber: c11U32s(sz[1])[0], SampleSize: c11U32s(sz[2])}
+	of := strings.Split(f[4], ";")
+	switch of[0] {
+	case "S":
+		stbl.Stco = &mp4.StcoBox{ChunkOffset: c11U32s(of[1])}
+	case "C":
+		stbl.Co64 = &mp4.Co64Box{ChunkOffset: c11U64s(of[1])}
+	case "B":
+		stbl.Stco = &mp4.StcoBox{ChunkOffset: c11U32s(of[1])}
+		stbl.Co64 = &mp4.Co64Box{ChunkOffset: c11U64s(of[2])}
+	}
+	if f[5] != "N" {
+		stbl.Stss = &mp4.StssBox{SampleNumber: c11U32s(strings.Split(f[5], ";")[1])}
+	}
+	if f[6] != "N" {
+		stbl.Sdtp = &mp4.SdtpBox{}
+		for _, e := range c11U32s(strings.Split(f[6], ";")[1]) {
+			stbl.Sdtp.Entries = append(stbl.Sdtp.Entries, mp4.SdtpEntry(e))
+		}
+	}
+	return stbl
+}
+
+func c11Hex(b []byte) string {
+	if len(b) == 0 {
+		return "-"
+	}
+	return hex.EncodeToString(b)
+}
+
+func c11FetchCase(line string) string {
+	f := strings.Split(line, "\t")
+	if len(f) != 15 {
+		panic("bad G line")
+	}
+	lazy := f[2] == "lazy"
+	a, b := c11U32s(f[3])[0], c11U32s(f[4])[0]
+	stbl := c11FetchStbl(f[5:12])
+	mstart, mlen := c11U64s(f[12])[0], c11U64s(f[13])[0]
+	var file []byte
+	if f[14] != "-" {
+		var err error
+		file, err = hex.DecodeString(f[14])
+		if err != nil {
+			panic(err)
+		}
+	}
+	mdat := &mp4.MdatBox{StartPos: mstart - 8}
+	if lazy {
+		mdat.SetLazyDataSize(mlen)
+	} else {
+		mdat.Data = file[mstart : mstart+mlen : mstart+mlen]
+	}
+	trak := &mp4.TrakBox{Mdia: &mp4.MdiaBox{
+		Hdlr: &mp4.HdlrBox{HandlerType: "vide"},
+		Mdhd: &mp4.MdhdBox{Timescale: 1000},
+		Minf: &mp4.MinfBox{Stbl: stbl},
+	}}
+	mp4f := &mp4.File{Moov: &mp4.MoovBox{Traks: []*mp4.TrakBox{trak}}, Mdat: mdat}
+	seg := &Segmenter{inFile: mp4f}
+	tr := &Track{trackType: "video", inTrak: trak, timeScale: 1000, trackID: 1}
+	seg.tracks = []*Track{tr}
+
+	full := func() (res string) {
+		defer func() {
+			if r := recover(); r != nil {
+				res = "panic"
+			}
+		}()
+		fss, err := seg.GetFullSamplesForInterval(mp4f, tr, a, b, bytes.NewReader(file))
+		if err != nil {
+			return "err"
+		}
+		if len(fss) == 0 {
+			return "ok:-"
+		}
+		p := make([]string, len(fss))
+		for i, s := range fss {
+			p[i] = fmt.Sprintf("%d.%d.%d.%d.%d.%s", s.Flags, s.Dur, s.Size, s.CompositionTimeOffset, s.DecodeTime, c11Hex(s.Data))
+		}
+		return "ok:" + strings.Join(p, ";")
+	}()
+	meta := func() (res string) {
+		defer func() {
+			if r := recover(); r != nil {
+				res = "panic"
+			}
+		}()
+		ss, err := seg.GetSamplesForInterval(mp4f, trak, a, b)
+		if err != nil {
+			return "err"
+		}
+		if len(ss) == 0 {
+			return "ok:-"
+		}
+		p := make([]string, len(ss))
+		for i, s := range ss {
+			p[i] = fmt.Sprintf("%d.%d.%d.%d", s.Flags, s.Dur, s.Size, s.CompositionTimeOffset)
+		}
+		return "ok:" + strings.Join(p, ";")
+	}()
+	cp := func() (res string) {
+		defer func() {
+			if r := recover(); r != nil {
+				res = "panic"
+			}
+		}()
+		var w bytes.Buffer
+		err := copyMediaData(trak, a, b, bytes.NewReader(file), &w)
+		if err != nil {
+			return "err"
+		}
+		return "ok:" + c11Hex(w.Bytes())
+	}()
+	fl := func() (res string) {
+		defer func() {
+			if r := recover(); r != nil {
+				res = "panic"
+			}
+		}()
+		return fmt.Sprintf("ok:%d", TranslateSampleFlagsForFragment(stbl, a))
+	}()
+	return line + "\t" + full + "\t" + meta + "\t" + cp + "\t" + fl
+}
